@@ -7,6 +7,8 @@
 mod build;
 #[path = "../c02.rs"]
 mod c02;
+#[path = "../c09.rs"]
+mod c09;
 #[path = "../engine.rs"]
 mod engine;
 #[path = "../hist.rs"]
@@ -192,6 +194,26 @@ fn record<K: BoolKind>(out: &mut dyn Write, seed: u64, cases: u32, threads: &[u3
             });
             let v: serde_json::Value = res.lines.iter().filter_map(|l| serde_json::from_str(l).ok()).find(|v: &serde_json::Value| v.get("d").is_some() || v.get("err").is_some()).unwrap_or(json!({"err": format!("crash: {:?}", res.end)}));
             let _ = writeln!(out, "{}", json!({"case": format!("n3-addvars/{}/{:?}", K::NAME, order), "threads": th, "digest": v["d"], "err": v["err"]}));
+        }
+    }
+    // ZBDD set-family operations (subset0/subset1/change/union/intsec/diff/make_node), all 256
+    // families of 3 variables: the exhaustive suite of C09 under this configuration
+    if K::KIND == BKind::Zbdd {
+        for &th in threads {
+            for (oi, order) in permutations(3).into_iter().enumerate() {
+                // managers with several workers are ~50x slower per operation: two orders there
+                if th > 1 && oi % 3 != 1 {
+                    continue;
+                }
+                let res = isolated(300, |w| {
+                    let mut rep = Report::default();
+                    c09::exh3(&order, th, &mut rep);
+                    let err = rep.viols.first().map(|v| format!("zbdd-sets: {}", v.what));
+                    let _ = writeln!(w, "{}", json!({"d": if err.is_none() { Some(mix(rep.evaluations)) } else { None }, "err": err}));
+                });
+                let v: serde_json::Value = res.lines.iter().filter_map(|l| serde_json::from_str(l).ok()).find(|v: &serde_json::Value| v.get("d").is_some() || v.get("err").is_some()).unwrap_or(json!({"err": format!("crash: {:?}", res.end)}));
+                let _ = writeln!(out, "{}", json!({"case": format!("n3-sets/zbdd/{:?}", order), "threads": th, "digest": v["d"], "err": v["err"]}));
+            }
         }
     }
     let w = Weights { reorder: 8, gc: 8, add_vars: 6, repeat: 12, rebuild: 8, ..Weights::default() };
